@@ -8,6 +8,7 @@ import (
 	"os/exec"
 	"path/filepath"
 	"regexp"
+	"sort"
 	"strings"
 	"sync"
 	"time"
@@ -35,6 +36,7 @@ type Result struct {
 	Solver   string
 	Ms       int64
 	VCBytes  int
+	Cases    int
 	Model    map[string]string
 	Output   string
 	Script   string // path (kept for failed obligations)
@@ -85,7 +87,89 @@ func runOne(ctx context.Context, spec SolverSpec, script string) (answer string,
 	return
 }
 
-// Solve decides one obligation.
+type caseRes struct {
+	answer, solver, out string
+	ms                  int64
+	model               map[string]string
+	solverMs            map[string]int64
+}
+
+// runScript decides one SMT script: z3-new alone first, then a race of all three solvers.
+func (s *Solver) runScript(path, script string) caseRes {
+	cr := caseRes{solverMs: map[string]int64{}}
+	specs := solverSpecs(s.timeoutS)
+	finish := func(ans, solver, out string, ms int64) {
+		cr.answer, cr.solver, cr.ms, cr.out = ans, solver, ms, out
+		if ans == "sat" {
+			cr.model = map[string]string{}
+			for _, m := range valueRe.FindAllStringSubmatch(out, -1) {
+				cr.model[strings.Trim(m[1], "|")] = m[2]
+			}
+		}
+	}
+	s.sem <- struct{}{}
+	ctx, cancel := context.WithTimeout(context.Background(), time.Duration(s.stage1S)*time.Second)
+	s1 := SolverSpec{specs[0].Name, []string{"z3-new", fmt.Sprintf("-T:%d", s.stage1S), "-smt2"}}
+	ans, out, ms := runOne(ctx, s1, path)
+	cancel()
+	<-s.sem
+	cr.solverMs[s1.Name] = ms
+	if ans == "unsat" || ans == "sat" {
+		finish(ans, s1.Name, out, ms)
+		return cr
+	}
+	scriptALL := path + ".cvc5.smt2"
+	os.WriteFile(scriptALL, []byte("(set-logic ALL)\n"+strings.Replace(script, "(set-option :produce-models true)\n", "", 1)), 0o644)
+	defer os.Remove(scriptALL)
+	type res struct {
+		ans, out, name string
+		ms             int64
+	}
+	ch := make(chan res, len(specs))
+	ctx2, cancel2 := context.WithCancel(context.Background())
+	for _, sp := range specs {
+		sp := sp
+		go func() {
+			s.sem <- struct{}{}
+			defer func() { <-s.sem }()
+			pth := path
+			if strings.HasPrefix(sp.Name, "cvc5") {
+				pth = scriptALL
+				sp.Cmd = append(sp.Cmd, "--produce-models")
+			}
+			if ctx2.Err() != nil {
+				ch <- res{"cancelled", "", sp.Name, 0}
+				return
+			}
+			ctx3, cancel3 := context.WithTimeout(ctx2, time.Duration(s.timeoutS+2)*time.Second)
+			a, o, m := runOne(ctx3, sp, pth)
+			cancel3()
+			ch <- res{a, o, sp.Name, m}
+		}()
+	}
+	var last res
+	got := false
+	for i := 0; i < len(specs); i++ {
+		x := <-ch
+		cr.solverMs[x.name] = x.ms
+		if x.ans == "unsat" || x.ans == "sat" {
+			finish(x.ans, x.name, x.out, x.ms)
+			got = true
+			break
+		}
+		if last.ans == "" || x.ans == "unknown" {
+			last = x
+		}
+	}
+	cancel2()
+	if !got {
+		finish(last.ans, last.name, last.out, last.ms)
+		cr.out = "no solver decided the query within the limit; last answer: " + last.ans + "\n" + last.out
+	}
+	return cr
+}
+
+// Solve decides one obligation (possibly as a case split over branch guards).
 func (s *Solver) Solve(u *Unit, o *Obligation) *Result {
 	tb := u.tb
 	r := &Result{Obl: o, Unit: u, SolverMs: map[string]int64{}}
@@ -93,12 +177,11 @@ func (s *Solver) Solve(u *Unit, o *Obligation) *Result {
 		r.Status, r.Answer, r.Solver = "discharged", "syntactic", "encoder"
 		return r
 	}
+	u.mu.Lock() // the term builder is not goroutine-safe
 	asserts := append([]*Term{}, u.facts[:o.NFacts]...)
 	asserts = append(asserts, o.Cond)
 	if !o.IsCover {
 		asserts = append(asserts, tb.Not(o.Prop))
-	}
-	if !o.IsCover {
 		asserts = pruneFacts(tb, asserts, len(asserts)-2)
 	}
 	var gv []*Term
@@ -109,106 +192,190 @@ func (s *Solver) Solve(u *Unit, o *Obligation) *Result {
 			}
 		}
 	}
-	p := NewPrinter(tb)
-	script := p.Script(asserts, gv, "")
-	r.VCBytes = len(script)
-	s.mu.Lock()
-	s.n++
-	id := s.n
-	s.mu.Unlock()
-	path := filepath.Join(s.dir, fmt.Sprintf("q%05d.smt2", id))
-	os.WriteFile(path, []byte("; "+o.Name+"\n"+script), 0o644)
-	scriptALL := path + ".cvc5.smt2"
-	specs := solverSpecs(s.timeoutS)
+	var cases [][]*Term
+	if o.IsCover {
+		cases = [][]*Term{asserts}
+	} else {
+		cases = splitCases(tb, asserts, u.branchConds)
+	}
+	var scripts []string
+	for _, c := range cases {
+		p := NewPrinter(tb)
+		g := gv
+		if os.Getenv("GPV_ALLSYMS") != "" {
+			names := map[string]bool{}
+			seen := map[int]bool{}
+			for _, a := range c {
+				tb.Syms(a, names, seen)
+			}
+			g = nil
+			for n := range names {
+				if s, ok := tb.syms[n]; ok && s.K != KStr {
+					g = append(g, tb.Sym(n, s))
+				}
+			}
+			sort.Slice(g, func(i, j int) bool { return g[i].Name < g[j].Name })
+		}
+		scripts = append(scripts, p.Script(c, g, ""))
+	}
+	u.mu.Unlock()
+	r.Cases = len(cases)
 	want := "unsat"
 	if o.IsCover {
 		want = "sat"
 	}
-	finish := func(ans, solver, out string, ms int64) {
-		r.Answer, r.Solver, r.Ms, r.Output = ans, solver, ms, out
-		if ans == "sat" {
-			r.Model = map[string]string{}
-			for _, m := range valueRe.FindAllStringSubmatch(out, -1) {
-				r.Model[strings.Trim(m[1], "|")] = m[2]
-			}
+	allOK := true
+	for ci, script := range scripts {
+		r.VCBytes += len(script)
+		s.mu.Lock()
+		s.n++
+		id := s.n
+		s.mu.Unlock()
+		path := filepath.Join(s.dir, fmt.Sprintf("q%05d.smt2", id))
+		os.WriteFile(path, []byte("; "+o.Name+"\n"+script), 0o644)
+		cr := s.runScript(path, script)
+		r.Ms += cr.ms
+		for k, v := range cr.solverMs {
+			r.SolverMs[k] += v
 		}
+		r.Answer, r.Solver = cr.answer, cr.solver
+		if cr.answer != want {
+			allOK = false
+			r.Model, r.Output, r.Script = cr.model, cr.out, path
+			if !o.IsCover {
+				u.mu.Lock()
+				if u.failAsserts == nil {
+					u.failAsserts = map[*Obligation][]*Term{}
+				}
+				u.failAsserts[o] = cases[ci]
+				u.mu.Unlock()
+			}
+			break
+		}
+		if o.IsCover {
+			r.Model = cr.model
+		}
+		os.Remove(path)
 	}
-	s.sem <- struct{}{}
-	// stage 1: z3-new alone with a short limit
-	ctx, cancel := context.WithTimeout(context.Background(), time.Duration(s.stage1S)*time.Second)
-	s1 := SolverSpec{specs[0].Name, []string{"z3-new", fmt.Sprintf("-T:%d", s.stage1S), "-smt2"}}
-	ans, out, ms := runOne(ctx, s1, path)
-	cancel()
-	<-s.sem
-	r.SolverMs[s1.Name] = ms
-	if ans == "unsat" || ans == "sat" {
-		finish(ans, s1.Name, out, ms)
-	} else {
-		// stage 2: race all three
-		os.WriteFile(scriptALL, []byte("(set-logic ALL)\n"+strings.Replace(script, "(set-option :produce-models true)\n", "", 1)), 0o644)
-		type res struct {
-			ans, out, name string
-			ms             int64
-		}
-		ch := make(chan res, len(specs))
-		ctx2, cancel2 := context.WithCancel(context.Background())
-		for _, sp := range specs {
-			sp := sp
-			go func() {
-				s.sem <- struct{}{}
-				defer func() { <-s.sem }()
-				pth := path
-				if strings.HasPrefix(sp.Name, "cvc5") {
-					pth = scriptALL
-					sp.Cmd = append(sp.Cmd, "--produce-models")
-				}
-				if ctx2.Err() != nil {
-					ch <- res{"cancelled", "", sp.Name, 0}
-					return
-				}
-				ctx3, cancel3 := context.WithTimeout(ctx2, time.Duration(s.timeoutS+2)*time.Second)
-				a, o, m := runOne(ctx3, sp, pth)
-				cancel3()
-				ch <- res{a, o, sp.Name, m}
-			}()
-		}
-		var last res
-		got := false
-		for i := 0; i < len(specs); i++ {
-			x := <-ch
-			r.SolverMs[x.name] = x.ms
-			if x.ans == "unsat" || x.ans == "sat" {
-				finish(x.ans, x.name, x.out, x.ms)
-				got = true
-				break
-			}
-			if last.ans == "" || x.ans == "unknown" {
-				last = x
-			}
-		}
-		cancel2()
-		if !got {
-			finish(last.ans, last.name, last.out, last.ms)
-			r.Output = "no solver decided the query within the limit; last answer: " + last.ans + "\n" + last.out
-		}
-		os.Remove(scriptALL)
+	if len(scripts) == 0 {
+		// every case collapsed syntactically
+		r.Answer, r.Solver = "syntactic", "encoder"
 	}
 	switch {
-	case o.IsCover && r.Answer == want:
+	case o.IsCover && allOK:
 		r.Status = "cover-ok"
 	case o.IsCover:
 		r.Status = "cover-failed"
-	case r.Answer == want:
+	case allOK:
 		r.Status = "discharged"
+		if r.Answer != "syntactic" {
+			r.Answer = "unsat"
+		}
 	default:
 		r.Status = "failed"
 	}
-	if r.Status == "discharged" || r.Status == "cover-ok" {
-		os.Remove(path)
-	} else {
-		r.Script = path
-	}
 	return r
+}
+
+// splitCases performs a case analysis over the branch guards that occur most often as
+// ite conditions in the query: substituting a guard by true / false lets the term
+// builder collapse the memory-read ite chains before the solver sees them. The
+// disjunction of the cases is the original query, so all cases must be unsat.
+func splitHeuristic(tb *TB, cases [][]*Term, maxGuards int) [][]*Term {
+	for g := 0; g < maxGuards; g++ {
+		// score guards over all current cases
+		score := map[*Term]int{}
+		size := 0
+		seen := map[int]bool{}
+		var walk func(t *Term)
+		walk = func(t *Term) {
+			if seen[t.id] {
+				return
+			}
+			seen[t.id] = true
+			size++
+			if t.Op == "ite" {
+				var atoms func(c *Term, d int)
+				atoms = func(c *Term, d int) {
+					if c.hasBV {
+						return
+					}
+					switch {
+					case c.Op == "not":
+						atoms(c.Args[0], d)
+					case (c.Op == "and" || c.Op == "or") && d < 3:
+						for _, a := range c.Args {
+							atoms(a, d+1)
+						}
+					default:
+						score[c]++
+						// object-identity atoms decide whole memory layers: prefer them
+						if c.Op == "=" && c.Args[0].Sort.K == KBV && c.Args[0].Sort.W == 32 {
+							score[c] += 2
+						}
+					}
+				}
+				atoms(t.Args[0], 0)
+			}
+			for _, a := range t.Args {
+				walk(a)
+			}
+		}
+		for _, c := range cases {
+			for _, a := range c {
+				walk(a)
+			}
+		}
+		if size < 1500 {
+			break
+		}
+		var best *Term
+		for c, n := range score {
+			if n < 6 {
+				continue
+			}
+			if best == nil || n > score[best] || n == score[best] && c.id < best.id {
+				best = c
+			}
+		}
+		if best == nil {
+			break
+		}
+		var next [][]*Term
+		for _, c := range cases {
+			for _, val := range []*Term{tb.True(), tb.False()} {
+				m := map[*Term]*Term{best: val}
+				memo := map[int]*Term{}
+				var nc []*Term
+				dead := false
+				for _, a := range c {
+					x := tb.SubstMemo(a, m, memo)
+					if x.IsFalse() {
+						dead = true
+						break
+					}
+					if !x.IsTrue() {
+						nc = append(nc, x)
+					}
+				}
+				if dead {
+					continue
+				}
+				// remember the case assumption (needed for models and for guards that are not symbols)
+				if val.IsTrue() {
+					nc = append(nc, best)
+				} else {
+					nc = append(nc, tb.Not(best))
+				}
+				next = append(next, nc)
+			}
+		}
+		cases = next
+		if len(cases) == 0 {
+			break
+		}
+	}
+	return cases
 }
 
 // pruneFacts keeps only the facts that share symbols (transitively) with the goal
@@ -264,3 +431,5 @@ func pruneFacts(tb *TB, asserts []*Term, goalStart int) []*Term {
 func genericSym(s string) bool {
 	return s == "uf:slen" || s == "uf:sbyte" || s == "uf:srank"
 }
+
+var _ = sort.Strings
